@@ -22,7 +22,7 @@ func lexFamilies(tier string) ([]string, map[string][]*gram.Grammar) {
 	if th {
 		n9 = 6
 	}
-	return []string{"L1", "L2", "L3", "L4", "L5", "L6", "L7", "L8", "L9"}, map[string][]*gram.Grammar{"L1": gram.L1(th), "L2": gram.L2(th), "L3": gram.L3(th), "L4": gram.L4(), "L5": gram.L5(), "L6": gram.L6(), "L7": gram.L7(), "L8": realLexGrammars(), "L9": gram.L9(n9)}
+	return []string{"L1", "L2", "L3", "L4", "L5", "L6", "L7", "L8", "L9", "L10"}, map[string][]*gram.Grammar{"L1": gram.L1(th), "L2": gram.L2(th), "L3": gram.L3(th), "L4": gram.L4(), "L5": gram.L5(), "L6": gram.L6(), "L7": gram.L7(), "L8": realLexGrammars(), "L9": gram.L9(n9), "L10": gram.L10()}
 }
 
 func strLits(g *gram.Grammar) []string {
@@ -127,10 +127,10 @@ func lexSweep(sw *sweeper, r *ev.Run, tier string, count bool) (leads []lexLead,
 
 // selectLexCorpus picks, per family, the smallest grammars with pairwise distinct emitted tables, up to a budget.
 func selectLexCorpus(sel map[string][]lexSel, order []string, leads []lexLead, tier string) []*corp.Item {
-	budget := map[string]int{"L1": 30, "L2": 40, "L3": 12, "L4": 18, "L5": 33, "L6": 20, "L7": 6, "L8": 4, "L9": 6}
+	budget := map[string]int{"L1": 30, "L2": 40, "L3": 12, "L4": 18, "L5": 33, "L6": 20, "L7": 6, "L8": 4, "L9": 6, "L10": 6}
 	maxLeads := 12
 	if tier == "thorough" {
-		budget = map[string]int{"L1": 220, "L2": 260, "L3": 60, "L4": 18, "L5": 33, "L6": 20, "L7": 15, "L8": 14, "L9": 30}
+		budget = map[string]int{"L1": 220, "L2": 260, "L3": 60, "L4": 18, "L5": 33, "L6": 20, "L7": 15, "L8": 14, "L9": 30, "L10": 20}
 		maxLeads = 40
 	}
 	var items []*corp.Item
@@ -289,9 +289,9 @@ func runLexCheck(prop, tier string) int {
 	r.Set("generator_runs", sw.pool.Jobs.Load())
 	r.Set("input_length_bound", n)
 	if prop == "C01" {
-		r.Set("rule", "layer A: per grammar of families L1-L9 (L7: wide patterns, L8: the lexical parts of the grammars shipped with the repository, read by an independent reader, L9: every ordered triple of ranges over five (thorough: six) points), BFS to closure of the product (emitted DFA state, reference position-automaton state), one transition per cell of the common refinement of all class boundaries (covers every Unicode scalar value, strings of every length); layer B: compiled unmodified lexers driven with every byte string up to the bound over a per-grammar alphabet (class representatives, newline, tab, multi-byte, ill-formed bytes) and one witness per product state, against the reference tokenizer; distinct = grammars whose product closed")
+		r.Set("rule", "layer A: per grammar of families L1-L10 (L7: wide patterns, L8: the lexical parts of the grammars shipped with the repository, read by an independent reader, L9: every ordered triple of ranges over five (thorough: six) points, L10: L5/L6 with every character literal spelled octal, \\x, \\u, \\U or raw), BFS to closure of the product (emitted DFA state, reference position-automaton state), one transition per cell of the common refinement of all class boundaries (covers every Unicode scalar value, strings of every length); layer B: compiled unmodified lexers driven with every byte string up to the bound over a per-grammar alphabet (class representatives, newline, tab, multi-byte, ill-formed bytes) and one witness per product state, against the reference tokenizer; distinct = grammars whose product closed")
 	} else {
-		r.Set("rule", "compiled unmodified lexers (selection of families L1-L9, distinct emitted tables), every byte string up to the bound over a per-grammar alphabet that always contains newline, tab, a multi-byte rune and an ill-formed byte: offset/line/column/literal of every token incl. INVALID, EOF and two post-EOF calls against the reference tokenizer; distinct = (lexer, token-kind/position vector) classes with at least one real token and an INVALID or skipped lexeme")
+		r.Set("rule", "compiled unmodified lexers (selection of families L1-L10, distinct emitted tables), every byte string up to the bound over a per-grammar alphabet that always contains newline, tab, a multi-byte rune and an ill-formed byte: offset/line/column/literal of every token incl. INVALID, EOF and two post-EOF calls against the reference tokenizer; distinct = (lexer, token-kind/position vector) classes with at least one real token and an INVALID or skipped lexeme")
 	}
 	r.Assumption("regular definitions are read as macros; recursive regular definitions are outside the families")
 	r.Assumption("behaviour is invariant under order-preserving renaming of runes, so 2-3 letters plus UTF-8 boundary code points reach every comparison in the generator")
